@@ -32,7 +32,9 @@ MANIFEST = {
     "ref": "6 C13",
 }
 RULE = ("the real ConcurrentTestSuite / ConcurrentStreamTestSuite with 0-4 sub-suites of 0-3 tests (classic: scripted "
-        "TestResult calls through the ThreadsafeForwardingResult incl. tags/times/all outcomes; stream: stream-native "
+        "TestResult calls through the ThreadsafeForwardingResult incl. tags/times/all outcomes; stream: sub-suites with "
+        "arbitrary route codes from make_tests (None, distinct, EQUAL for several sub-suites - also in the "
+        "bounded-exhaustive core), stream-native "
         "workers emitting status events with own route codes and the timestamp keyword left out / passed explicitly "
         "as None with the full status() signature (a replayed event dict) / set to the worker's own datetime), sub-suites whose run() raises (Exception -> broken-runner, BaseException -> thread "
         "dies), make_tests raising after k sub-suites, an interrupt at the n-th queue.get, the caller's result raising "
@@ -45,6 +47,9 @@ TRUSTED = ["harness/vcheck/sched.py: deterministic scheduler for real threads; y
            "testtools.testsuite.threading, .Queue and .testtools are rebound from the harness for the duration of one "
            "case and restored afterwards"]
 ASSUMPTIONS = ["a sub-suite's run(result) does not catch what the result raises (it propagates, as from TestCase.run)",
+               "stream: a queue item is attributed to the worker whose thread put it, and an event main passes to the "
+               "caller's result to the worker whose item main dequeued last (harness knowledge; route codes may be "
+               "shared by several sub-suites and identify nobody)",
                "stream: attachment-only events travel with the worker's next status event (harness queue)",
                "fault plans are per thread (the k-th call of thread t on the caller's result raises)"]
 EXPLANATION = ("Theorems in coq/Props/C13.v over all schedules; correspondence: the real concurrent suites with real "
@@ -129,18 +134,32 @@ class StreamSub:
                               timestamp=own_datetime(ts))
 
 
+def route_str(r):
+    """the route code make_tests yields with a sub-suite: None, or the string for code number r"""
+    return None if r is None else "r%d" % r
+
+
+def suite_route(s, w):
+    """route code number of sub-suite w (cases written before route codes could repeat: distinct codes)"""
+    return s["route"] if "route" in s else w
+
+
 def parse_route(rc):
-    m = re.fullmatch(r"w(\d+)(?:/x(\d+))?", rc or "")
-    if not m:
-        return 998, None
-    return int(m.group(1)), (None if m.group(2) is None else int(m.group(2)))
+    """a route code as it travels -> [sub-suite's code, the event's own code] ("r3/x1", "r3", "x1", None)"""
+    if rc is None:
+        return [None, None]
+    m = re.fullmatch(r"(?:r(\d+))?(?:(?:(?<=\d)/)?x(\d+))?", rc)
+    if not m or rc == "":
+        return [998, None]
+    return [None if m.group(1) is None else int(m.group(1)), None if m.group(2) is None else int(m.group(2))]
 
 
-def parse_id(test_id, w):
+def parse_id(test_id, route):
+    """route: the route code string of the sub-suite of the worker the event came from"""
     m = re.fullmatch(r"t(\d+)", test_id or "")
     if m:
         return int(m.group(1))
-    if test_id == "broken-runner-'w%d'" % w:
+    if test_id == "broken-runner-'%s'" % (route,):
         return 999
     return 998
 
@@ -150,43 +169,50 @@ def invisible(item):
             and item.get("file_name") is not None)
 
 
-def make_describe(sched):
-    """Completion tokens of the classic suite are identified by the worker that put them (whatever object the
-    suite uses as token), stream events by their route code."""
-    owner = {}
+class Describe:
+    """What travels through the queue, as the observation names it.  A queue item is attributed to the WORKER
+    THAT PUT IT (harness knowledge: which thread called put) - never to a route code, which several sub-suites
+    may share: completion tokens of the classic suite whatever object the suite uses as token, stream event
+    dicts by object identity.  `last_owner` is the worker whose item main dequeued last: the event main then
+    passes to the caller's result came from that worker."""
 
-    def describe(item):
+    def __init__(self, sched, routes):
+        self.sched, self.routes = sched, routes
+        self.owner = {}
+        self.last_owner = 998
+
+    def route_of(self, w):
+        return self.routes[w] if 0 <= w < len(self.routes) else "?"
+
+    def __call__(self, item):
+        tid = self.sched.current_tid()
         if isinstance(item, dict):
-            return describe_item(item)
-        try:
-            key = ("h", hash(item), type(item).__name__)
-        except TypeError:
-            key = ("i", id(item))
-        tid = sched.current_tid()
+            key = ("d", id(item))
+        else:
+            try:
+                key = ("h", hash(item), type(item).__name__)
+            except TypeError:
+                key = ("i", id(item))
         if tid != 0:
-            owner[key] = tid - 1
-        return ["token", owner.get(key, 998)]
-    return describe
-
-
-def describe_item(item):
-    if isinstance(item, dict):
+            self.owner[key] = tid - 1
+        w = self.owner.get(key, 998)
+        if tid == 0:
+            self.last_owner = w
+        if not isinstance(item, dict):
+            return ["token", w]
         ev = item.get("event")
         if ev in ("startTestRun", "stopTestRun"):
-            w, _ = parse_route(item["result"].routing_code)
             return ["start" if ev == "startTestRun" else "stop", w]
-        w, own = parse_route(item.get("route_code"))
         st = item.get("test_status")
-        return ["status", w, parse_id(item.get("test_id"), w), STATUSES.index(st) if st in STATUSES else 99, own,
-                ts_kind(item.get("timestamp"))]
-    return ["token", getattr(item, "w", 998)]
+        return ["status", w, parse_id(item.get("test_id"), self.route_of(w)), STATUSES.index(st) if st in STATUSES else 99,
+                parse_route(item.get("route_code")), ts_kind(item.get("timestamp"))]
 
 
 class StreamTarget:
     """the caller's StreamResult: status() is a yield point (attachment-only events excepted)"""
 
-    def __init__(self, sched, trace, faults, exc):
-        self._sched, self._trace, self._faults, self._exc = sched, trace, set(faults), exc
+    def __init__(self, sched, trace, faults, exc, desc):
+        self._sched, self._trace, self._faults, self._exc, self._desc = sched, trace, set(faults), exc, desc
         self._n = 0
         self.n_invisible = 0
 
@@ -204,10 +230,10 @@ class StreamTarget:
         k = self._n
         self._n += 1
         raised = k in self._faults
-        w, own = parse_route(route_code)
+        w = self._desc.last_owner
         st = STATUSES.index(test_status) if test_status in STATUSES else 99
-        self._trace.append((self._sched.current_tid(), "status", w, parse_id(test_id, w), st, own,
-                            ts_kind(timestamp), raised))
+        self._trace.append((self._sched.current_tid(), "status", w, parse_id(test_id, self._desc.route_of(w)), st,
+                            parse_route(route_code), ts_kind(timestamp), raised))
         if raised:
             raise self._exc()
 
@@ -222,10 +248,12 @@ def drive(case):
     trace = []
     ns = ThreadingNamespace(sched, sem_log=trace)
     queues = []
+    routes = [route_str(suite_route(s, w)) for w, s in enumerate(case["suites"])] if stream else []
+    desc = Describe(sched, routes)
 
     def make_queue(maxsize=0):
         qq = SchedQueue(sched, log=trace, get_faults=[] if case["get_intr"] is None else [case["get_intr"]],
-                        exc=BoomBase, describe=make_describe(sched), invisible=invisible)
+                        exc=BoomBase, describe=desc, invisible=invisible)
         queues.append(qq)
         return qq
     n = len(case["suites"])
@@ -241,7 +269,7 @@ def drive(case):
             for k, sub in enumerate(subs):
                 if mt == k:
                     raise exc()
-                yield sub, "w%d" % k
+                yield sub, routes[k]
             if mt is not None and mt == n:
                 raise exc()
 
@@ -255,7 +283,7 @@ def drive(case):
 
             def __getattr__(self, name):
                 return getattr(testtools, name)
-        target = StreamTarget(sched, trace, case["main_faults"], exc)
+        target = StreamTarget(sched, trace, case["main_faults"], exc, desc)
         suite = ts.ConcurrentStreamTestSuite(make_tests)
     else:
         subs = [ClassicSub(w, s["script"], exc) for w, s in enumerate(case["suites"])]
@@ -333,6 +361,10 @@ def t_tsarg(k):
     return "TsOmit" if k == "omit" else "TsNone" if k == "none" else "(TsAt %s)" % q.nat(k)
 
 
+def t_rcode(rc):
+    return q.pair(q.option(rc[0], q.nat), q.option(rc[1], q.nat))
+
+
 def t_qitem(d):
     if d[0] == "token":
         return "(QToken %s)" % q.nat(d[1])
@@ -340,7 +372,7 @@ def t_qitem(d):
         return "(QStart %s)" % q.nat(d[1])
     if d[0] == "stop":
         return "(QStop %s)" % q.nat(d[1])
-    return "(QStatus %s %s %s %s %s)" % (q.nat(d[1]), q.nat(d[2]), q.nat(d[3]), q.option(d[4], q.nat), t_tstamp(d[5]))
+    return "(QStatus %s %s %s %s %s)" % (q.nat(d[1]), q.nat(d[2]), q.nat(d[3]), t_rcode(d[4]), t_tstamp(d[5]))
 
 
 def t_cev(e):
@@ -363,7 +395,7 @@ def t_cev(e):
     if k == "getintr":
         return "(%s, CGetIntr)" % t
     if k == "status":
-        return "(%s, CStatus %s %s %s %s %s %s)" % (t, q.nat(e[2]), q.nat(e[3]), q.nat(e[4]), q.option(e[5], q.nat),
+        return "(%s, CStatus %s %s %s %s %s %s)" % (t, q.nat(e[2]), q.nat(e[3]), q.nat(e[4]), t_rcode(e[5]),
                                                    t_tstamp(e[6]), q.boolean(e[7]))
     raise ValueError(e)
 
@@ -384,7 +416,8 @@ def term(case, o):
               ("sched", q.lst([q.nat(t) for t in case["sched"]]))]
     if case["variant"] == "stream":
         suites = q.lst([q.lst([t_sitem(c) for c in s["script"]]) for s in case["suites"]])
-        i = "(IStream %s)" % q.record([("si_suites", suites)] + [("si_" + k, v) for k, v in common])
+        routes = q.lst([q.option(suite_route(s, w), q.nat) for w, s in enumerate(case["suites"])])
+        i = "(IStream %s)" % q.record([("si_suites", suites), ("si_routes", routes)] + [("si_" + k, v) for k, v in common])
     else:
         suites = q.lst([q.pair(q.lst([t_rcall(c) for c in s["script"]]), q.lst([q.nat(k) for k in s["faults"]]))
                         for s in case["suites"]])
@@ -414,8 +447,13 @@ def csuite(script, faults=()):
     return {"script": script, "faults": sorted(faults)}
 
 
-def ssuite(script):
-    return {"script": script}
+def ssuite(script, route="distinct"):
+    return {"script": script} if route == "distinct" else {"script": script, "route": route}
+
+
+def routed(suites, routes):
+    """the same stream sub-suites with the given route codes (None or a code number; codes may repeat)"""
+    return [dict(s, route=r) for s, r in zip(suites, routes)]
 
 
 def c_steps(suite):
@@ -452,6 +490,7 @@ def rand_ts(rng, style):
 
 def rand_stream_suite(rng, w):
     script = []
+    route = rng.choice([None, None, 1, 1, 2, 3])
     style = rng.choice(["omit", "omit", "none", "own", "mixed", "mixed"])
     for j in range(rng.randint(0, 3)):
         t = 10 * (w + 1) + j
@@ -462,7 +501,7 @@ def rand_stream_suite(rng, w):
         script.append(["ev", t, rng.choice([1, 2, 3, 5, 6]), rng.choice([None, None, 1, 2]), rand_ts(rng, style)])
     if rng.random() < 0.25:
         script.insert(rng.randint(0, len(script)), ["raise"])
-    return ssuite(script)
+    return ssuite(script, route)
 
 
 FIXED_CLASSIC = [csuite(c12.mk_test(11, 0, 1, 2) + c12.mk_test(12, 1, 3, 4, in_tags=[([1], [])])),
@@ -494,6 +533,19 @@ def generate(rng, tier):
         sc = [["ev", 40 + j, [0, 1, 2][j % 3], None if j % 2 == 0 else 1, k] for j, k in enumerate(kinds)]
         cases.append(mk_case("stream", [ssuite(sc)], []))
         cases.append(mk_case("stream", [ssuite(sc), ssuite(list(reversed(sc)))], [1, 2, 0] * 10))
+    # sub-suites that were given EQUAL route codes (all None, 'a','a', 'a','b','a'): every worker is still
+    # joined, every event delivered, an abort still stops every started worker; two of them raise, so that even
+    # their broken-runner tests have the same id
+    raising = ssuite([["ev", 51, 0, None, "omit"], ["raise"]])
+    for routes in ([None, None], [1, 1], [None, None, None], [1, 2, 1], [1, 1, 1], [None, 1, None, 1]):
+        pool = [FIXED_STREAM[0], FIXED_STREAM[1], raising, FIXED_STREAM[2]]
+        suites = routed(pool[:len(routes)], routes)
+        nw = len(routes)
+        for sched in ([], list(range(1, nw + 1)) * 12, list(range(nw, -1, -1)) * 10, [0, nw, 0, 1] * 8):
+            cases.append(mk_case("stream", suites, sched))
+            cases.append(mk_case("stream", suites, sched, mt_raise=nw - 1))
+            cases.append(mk_case("stream", suites, sched, get_intr=nw))
+            cases.append(mk_case("stream", suites, sched, main_faults=[2], base=True))
     # a worker LEAVING _run_test with an exception must still post its completion token:
     # (a) run() raises and the caller's result raises while the broken-runner test is reported,
     # (b) run() raises something that is not an Exception (sys.exit() in a test); next to a healthy worker
@@ -509,6 +561,8 @@ def generate(rng, tier):
     # ---- bounded-exhaustive core
     for v, fixed, steps in (("classic", FIXED_CLASSIC, c_steps), ("stream", FIXED_STREAM, s_steps)):
         suites = fixed[:2] if quick else fixed
+        if v == "stream":      # the exhaustive core runs sub-suites that share a route code
+            suites = routed(suites, [1, 1] if quick else [1, None, 1])
         lens = [3 * len(suites) + 2] + [steps(s) for s in suites]
         scheds = c12.segment_schedules(lens, 1 if quick else 2)
         if len(scheds) > (700 if quick else 12000):
@@ -577,6 +631,10 @@ def shrink(case):
             if c[0] == "ev" and ev_ts(c) != "omit":     # the plainest spelling of the timestamp
                 yield dict(case, suites=ss[:w] + [dict(s, script=s["script"][:j] + [c[:4] + ["omit"]] + s["script"][j + 1:])]
                            + ss[w + 1:])
+    if case["variant"] == "stream":      # route codes made distinct where the failure survives
+        for w, s in enumerate(ss):
+            if suite_route(s, w) != 20 + w:
+                yield dict(case, suites=ss[:w] + [dict(s, route=20 + w)] + ss[w + 1:])
     for key in ("mt_raise", "get_intr"):
         if case[key] is not None:
             yield dict(case, **{key: None})
@@ -596,7 +654,8 @@ def shrink(case):
 def distribution(cases):
     d = {"variant": {}, "workers": {}, "mt_raise": 0, "get_intr": 0, "main_faults": 0, "base_exception": 0,
          "suites_that_raise": 0, "worker_faults": 0, "sched_len": {},
-         "stream_events_by_timestamp_argument": {"omitted": 0, "explicit None": 0, "own": 0}}
+         "stream_events_by_timestamp_argument": {"omitted": 0, "explicit None": 0, "own": 0},
+         "stream_cases_with_a_repeated_route_code": 0, "stream_cases_with_route_None": 0}
     for c in cases:
         d["variant"][c["variant"]] = d["variant"].get(c["variant"], 0) + 1
         nw = len(c["suites"])
@@ -608,6 +667,9 @@ def distribution(cases):
         d["suites_that_raise"] += any(x[0] == "raise" for s in c["suites"] for x in s["script"])
         d["worker_faults"] += any(s.get("faults") for s in c["suites"])
         if c["variant"] == "stream":
+            rts = [suite_route(su, w) for w, su in enumerate(c["suites"])]
+            d["stream_cases_with_a_repeated_route_code"] += len(set(rts)) < len(rts)
+            d["stream_cases_with_route_None"] += None in rts
             for su in c["suites"]:
                 for x in su["script"]:
                     if x[0] == "ev":
